@@ -377,6 +377,13 @@ def ansHistBoth (a : List String) : String :=
 
 def flagOf (s : String) : Bool := s == "1"
 
+def cldrDerivedLayout : Layout := Spec.derivedLayout Gen.cldrLayout
+
+def dirClause (x : LangId) : String :=
+  match Spec.directionClause cldrDerivedLayout x.language x.script with
+  | some d => s!"must {dirName d}"
+  | none => "free"
+
 /-- `from_raw_parts_unchecked(l, s, r, Some(Box::new([])))` for an identifier without variants -/
 def someEmpty (x : LangId) : LangId := if x.variantList.isEmpty then { x with variants := some [] } else x
 
@@ -509,8 +516,9 @@ def answer (line : String) : String :=
             | .ok d => s!"ok {dirName d}"
             | .err _ => "err"
             | .panic => "panic"
-          -- `dir` answers for both builds: with \t between them the checker picks by feature set
-          s!"{one true}\t{one false}"
+          -- `dir` answers for both builds: with \t between them the checker picks by feature set; third column:
+          -- the unconditional clauses of C14 evaluated on the layout the CLDR files determine
+          s!"{one true}\t{one false}\t{dirClause x}"
         | .err e => s!"{errCode e}\t{errCode e}"
         | .panic => "panic"
       | none => "bad"
@@ -523,7 +531,7 @@ def answer (line : String) : String :=
             | .ok d => s!"ok {dirName d}"
             | .err _ => "err"
             | .panic => "panic"
-          s!"{one true}\t{one false}"
+          s!"{one true}\t{one false}\t{dirClause x.id}"
         | .err e => s!"{errCode e}\t{errCode e}"
         | .panic => "panic"
       | none => "bad"
@@ -575,7 +583,7 @@ def answer (line : String) : String :=
       | some x, some y =>
         match Locale.fromBytes x, Locale.fromBytes y with
         | .ok x, .ok y =>
-          s!"ok eq={b01 (x == y)} cmp={ordStr (cmpLoc x y)} rcmp={ordStr (cmpLoc y x)} he={b01 (x == y)} se={b01 (x.display == y.display)} lieq={b01 (x.id == y.id)} licmp={ordStr (cmpLi x.id y.id)}"
+          s!"ok eq={b01 (x == y)} cmp={ordStr (cmpLoc x y)} rcmp={ordStr (cmpLoc y x)} he={b01 (x == y)} se={b01 (x.display == y.display)} lieq={b01 (x.id == y.id)} licmp={ordStr (cmpLi x.id y.id)} xi={renderLi x.id} yi={renderLi y.id}"
         | _, _ => "err"
       | _, _ => "bad"
     | "eqstr" => match arg 0, arg 1 with
